@@ -137,6 +137,10 @@ FastIsDef ==
       /\ BoundaryFast(MaskOf(R, N), Shape, Full) = BoundaryDef(MaskOf(R, N), Shape, Full)
       /\ ComponentsFast(R, Shape, Full) = Components(R, Shape, Full)
       /\ ComponentsFast(hdc, Shape, Full) = Components(hdc, Shape, Full)
+(* the coordinate sets of Label are the notion Trace_C15 judges with (OneSetPerBoundaryPiece): *)
+(* the connected pieces, under the full neighbourhood, of the boundary of the region          *)
+LabelIsTraceNotion ==
+    Done /\ ~Cross => Range(sets) = ComponentsFast(BoundaryFast(MaskOf(R, N), Shape, Full), Shape, Full)
 (* raster label order *)
 LabelOrder == Done => \A i \in 1..(Len(sets) - 1) : LeastOf(sets[i]) < LeastOf(sets[i + 1])
 
